@@ -121,33 +121,64 @@ def run_gen(c):
 # ---------------------------------------------------------------------------------------------------
 # (B) sink
 
-def sink_case(rng, cid):
+ASSUMPTIONS.append('sink cases: in 60% of them a second PacketSink (own recording flags, own deliveries over the same flow ids / source names, interleaved in time) '
+                   'lives in the same Environment; each sink is replayed through the sink model and judged by the oracle on the packets delivered to IT')
+
+
+def sink_case(rng, cid, peer=True):
     n = rng.randint(1, 15)
     ds = []
     for _ in range(n):
         ds.append({'gap': rng.choice([0, 0, 0.5, 1, 2, round(rng.random() * 2, 3)]), 'flow': rng.randrange(3), 'src': rng.randrange(2),
                    'ptime': rng.choice([0, 0.25, 1]), 'size': rng.choice([40, 100, 1500])})
-    return {'cid': f's{cid}', 'kind': 'sink', 'rec_arr': rng.random() < 0.8, 'absolute': rng.random() < 0.5, 'rec_waits': rng.random() < 0.8,
-            'by_flow': rng.random() < 0.7, 'ds': ds}
+    c = {'cid': f's{cid}', 'kind': 'sink', 'rec_arr': rng.random() < 0.8, 'absolute': rng.random() < 0.5, 'rec_waits': rng.random() < 0.8,
+         'by_flow': rng.random() < 0.7, 'ds': ds}
+    if peer and rng.random() < 0.6:
+        # "a PacketSink's per-flow (or per-source) packet and byte counts, arrival times and waits are exactly those of the packets
+        # delivered to IT": a second sink fed other packets of the same flows / sources in the same Environment
+        c['peer'] = sink_case(rng, f'{cid}.p', peer=False)
+        if rng.random() < 0.5:
+            for k in ('rec_arr', 'absolute', 'rec_waits', 'by_flow'):
+                c['peer'][k] = c[k]
+        c['peer']['first'] = rng.random() < 0.4
+    return c
 
 
 def run_sink(c):
     env = Environment()
-    sink = PacketSink(env, rec_arrivals=c['rec_arr'], absolute_arrivals=c['absolute'], rec_waits=c['rec_waits'], rec_flow_ids=c['by_flow'])
-    seen = []
-    def drv():
-        for i, d in enumerate(c['ds']):
+    mk = lambda cc: PacketSink(env, rec_arrivals=cc['rec_arr'], absolute_arrivals=cc['absolute'], rec_waits=cc['rec_waits'], rec_flow_ids=cc['by_flow'])
+    pc = c.get('peer')
+    psink = mk(pc) if pc and pc.get('first') else None
+    sink = mk(c)
+    if pc and psink is None:
+        psink = mk(pc)
+    def drv(cc, sk, seen):
+        for i, d in enumerate(cc['ds']):
             yield env.timeout(d['gap'])
             p = Packet(d['ptime'], d['size'], i + 1, src=d['src'], flow_id=d['flow'])
             seen.append((env.now, p))
-            sink.put(p)
-    env.process(drv())
+            sk.put(p)
+    seen, pseen = [], []
+    env.process(drv(c, sink, seen))
+    if pc:
+        env.process(drv(pc, psink, pseen))
     env.run()
+    impl, text, fails = sink_report(c, sink, seen, c['cid'], '')
+    if pc:
+        a, t, f = sink_report(pc, psink, pseen, c['cid'] + '.p', 'the second of two PacketSinks in one Environment: ')
+        impl.update(a); text += t; fails += f
+        for x in fails:
+            if not x['what'].startswith('the second'):
+                x['what'] = 'the first of two PacketSinks in one Environment: ' + x['what']
+    return impl, text, fails
+
+
+def sink_report(c, sink, seen, base, label):
     keyof = (lambda p: p.flow_id) if c['by_flow'] else (lambda p: p.src)
     keys = sorted({keyof(p) for _, p in seen})
     impl, text, fails = {}, [], []
     for k in keys:
-        cid = f"{c['cid']}k{k}"
+        cid = f"{base}k{k}"
         first = sink.first_arrival[k] if (c['rec_arr'] and k in sink.first_arrival) else None
         impl[cid] = [f"count={sink.packets_received[k]} bytes={sink.bytes_received[k]} "
                      f"waits={','.join(str(bits(x)) for x in sink.waits[k])} sizes={list(sink.packet_sizes[k])} "
@@ -159,13 +190,21 @@ def run_sink(c):
         text.append('END')
         mine = [(t, p) for t, p in seen if keyof(p) == k]
         if sink.packets_received[k] != len(mine) or sink.bytes_received[k] != sum(p.size for _, p in mine):
-            fails.append({'what': f'sink counts for key {k} wrong', 'signature': 'sink-counts'})
+            fails.append({'what': f'{label}sink counts for key {k} wrong: {sink.packets_received[k]} packets / {sink.bytes_received[k]} bytes recorded, '
+                                  f'{len(mine)} packets / {sum(p.size for _, p in mine)} bytes delivered to it', 'signature': 'sink-counts'})
         if c['rec_waits'] and list(sink.waits[k]) != [t - p.time for t, p in mine]:
-            fails.append({'what': f'sink waits for key {k} are not arrival - creation time', 'signature': 'sink-waits'})
+            fails.append({'what': f'{label}sink waits for key {k} are not arrival - creation time', 'signature': 'sink-waits'})
         if c['rec_arr']:
             want = [t for t, _ in mine] if c['absolute'] else [t - (mine[i - 1][0] if i else 0.0) for i, (t, _) in enumerate(mine)]
             if list(sink.arrivals[k]) != want:
-                fails.append({'what': f'sink arrivals for key {k} wrong', 'signature': 'sink-arrivals'})
+                fails.append({'what': f'{label}sink arrivals for key {k} wrong: recorded {list(sink.arrivals[k])[:8]}, delivered at {want[:8]} '
+                                      f'({"absolute" if c["absolute"] else "inter-arrival"})', 'signature': 'sink-arrivals'})
+    # keys the sink reports although nothing with that key was delivered to it
+    for name in ('packets_received', 'bytes_received'):
+        extra = sorted(k for k, v in getattr(sink, name).items() if k not in keys and v)
+        if extra:
+            fails.append({'what': f'{label}sink reports {name} for keys {extra} although no packet with such a key was delivered to it', 'signature': 'sink-counts'})
+            break
     return impl, text, fails
 
 
@@ -232,6 +271,9 @@ class Pipe:
         self.badrule = []         # port drops / admissions that are not by the documented tail-drop rule
         self.nrule = 0
         self.sink = PacketSink(env)
+        # a second sink, not part of the pipeline, that receives a few packets of the same flows from a source of its own
+        # (the sink of a neighbouring pipeline in the same Environment): what the pipeline's sink reports is what the pipeline delivered
+        self.decoy = PacketSink(env) if c.get('decoy') else None
         self.elems = []
         # a chain; optionally a FlowDemux in the middle fanning out to per-flow branches that join at the sink
         names = []
@@ -323,6 +365,12 @@ class Pipe:
                     self.head.put(p)
         for k in range(c['nsrc']):
             env.process(src(k + 1))
+        if self.decoy is not None:
+            def side():
+                for i in range(c['decoy']):
+                    yield env.timeout(rng.choice([0, 0.5, 1, 0.125]))
+                    self.decoy.put(Packet(env.now, rng.choice([40, 100, 500, 1500]), 5000 + i, src='s1', flow_id=rng.choice(FLOWS)))
+            env.process(side())
         if c['fan'] and c.get('fan_kind') == 'fib':
             def reroute():
                 yield env.timeout(c['t_update'])
@@ -392,6 +440,9 @@ def pipe_oracle(c, pr):
     ndrop = sum(len(d['drop']) for d in per.values())
     lossy = any(k == 'wire' and e.loss_rate for _, k, e in pr.elems)
     nnr = len(getattr(pr, 'noroute', []))
+    if pr.decoy is not None and sum(pr.decoy.packets_received.values()) != c['decoy']:
+        fails.append({'what': f'a second PacketSink in the Environment of the pipeline was handed {c["decoy"]} packets and reports '
+                              f'{sum(pr.decoy.packets_received.values())}', 'signature': 'sink-counts'})
     if not lossy and got + ndrop + nnr != len(pr.sent):
         fails.append({'what': f'{len(pr.sent)} packets sent, {got} at the sink, {ndrop} dropped by ports, {nnr} discarded for lack of a route '
                               f'(chain {c["chain"]}, fan {c["fan"]}, {c.get("fan_kind", "flow")} demux)', 'signature': 'pipeline-conservation'})
@@ -407,6 +458,8 @@ def pipe_case(rng, cid):
     if rng.random() < 0.3:
         fan = {f: rng.choice(['port', 'wire', 'tb', 'sp', 'drr', 'wfq']) for f in FLOWS}
     c = {'cid': f'p{cid}', 'kind': 'pipe', 'chain': chain, 'fan': fan, 'seed': rng.randrange(1 << 30), 'nsrc': rng.randint(1, 3), 'npk': rng.randint(1, 10)}
+    if rng.random() < 0.4:
+        c['decoy'] = rng.randint(1, 6)
     if fan and rng.random() < 0.5:
         c.update(fan_kind='fib', fib0=[f for f in FLOWS if rng.random() < 0.5], t_update=rng.choice([0.5, 1, 2, 3, 5]),
                  update=rng.choice(['setter', 'inplace']))
@@ -434,6 +487,7 @@ def run(ctx):
             hist['gen:with_peer_of_same_flow'] += 1 if c.get('peer') else 0
         elif c['kind'] == 'sink':
             a, t, f = run_sink(c); impl.update(a); text += t
+            hist['sink:with_second_sink_in_the_same_environment'] += 1 if c.get('peer') else 0
             for k in a: owner[k] = c
         else:
             pr = Pipe(c).run()
@@ -442,6 +496,7 @@ def run(ctx):
             hist['port_puts_checked_against_tail_drop_rule'] += pr.nrule
             for k in c['chain']: hist['elem:' + k] += 1
             if c['fan']: hist['fan-out:' + c.get('fan_kind', 'flow')] += 1
+            if c.get('decoy'): hist['pipelines_with_a_second_sink_in_the_environment'] += 1
         for x in f:
             x['case'] = c
             orc.append(x)
